@@ -66,6 +66,10 @@ Next == \/ \E n \in 0..MaxN, s \in {"null", "data"} : PackBytes(n, s) \/ UnpackB
         \/ \E v \in V32 : PackS32le(v) \/ PackU32le(v)
         \/ UnpackChar \/ UnpackS8 \/ UnpackU8 \/ UnpackU16le \/ UnpackU32le \/ Rewind
 Spec == Init /\ [][Next]_vars
+(* any fixed-size operation given by its wire image (pack) or by size and byte order (unpack): what the operations the header
+   declares but pack.c does not define yet must do if they ever appear *)
+PackWire(bytes) == TRUE /\ Put(bytes)
+UnpackWire(n, order) == TRUE /\ Take(n, IF order = "be" THEN Get(n) ELSE Rev(Get(n)))
 (* rf_pack_init over exactly what has been consumed so far (pack, flip, unpack): the buffer is now the first p bytes *)
 Flip == /\ p <= size /\ size' = p /\ buf' = SubSeq(buf, 1, p) /\ p' = 0 /\ touched' = {i \in touched : i <= p}
         /\ res' = <<>> /\ nops' = nops + 1
